@@ -297,3 +297,24 @@ def shrinks(case):
         s = case['s']
         for i in range(len(s)):
             yield dict(case, s=s[:i] + s[i + 1:])
+
+
+def kernel_guards(ctx, rep):
+    """The string functions of the exposition and the text parser, as the extracted driver answers them, against vm_compute on
+    the Gallina definitions themselves (no extraction, no OCaml glue): adversarial strings over the escape alphabet."""
+    import random
+    from .incoq import kernel_guard, coq_str
+    rr = random.Random(ctx.seed * 31 + 5)
+    alpha = ['\\', '"', '\n', 'n', 'a', ' ', '\t', '=', ',', '{', '}', '\u00e9', '\U0001f600', '_', ':', '1', '\r', '\x0b']
+    strs = ['', '\\', '\\\\', '\\n', '\\\\n', '"', '\\"', 'a\nb', ' a ', 'a.b', '1a', '_x', 'é']
+    strs += [''.join(rr.choice(alpha) for _ in range(rr.randrange(1, 9))) for _ in range(ctx.n(60, 600))]
+    strs += [reggen.adv_string(rr, 6) for _ in range(ctx.n(40, 400))]
+    for cmd, fn, req in (('escape', 'escape_chain', 'model.Expo'), ('help_escape', 'help_escape_chain', 'model.Expo'),
+                         ('escape_metric_name', 'escape_metric_name', 'model.Expo'),
+                         ('escape_label_name', 'escape_label_name', 'model.Expo'),
+                         ('replace_escaping', 'replace_escaping', 'model.TextParser'),
+                         ('replace_help_escaping', 'replace_help_escaping', 'model.TextParser'),
+                         ('strip', 'strip', 'lib.PyStr')):
+        sample = [(coq_str(t), d_str(ctx.model.call(cmd, t))) for t in strs]
+        kernel_guard(rep, fn, ['lib.PyBase', req], fn, sample)
+
